@@ -67,6 +67,8 @@ func main() {
 		{"GpkgSchemaGen.v", genGpkgSchema},
 		{"TmsAddrGen.v", genTmsAddr},
 		{"DeviationGen.v", genDeviation},
+		{"GeomHelpGen.v", genGeomHelp},
+		{"GeomHelpFloatGen.v", genGeomHelpFloat},
 	}
 	failed := false
 	for _, g := range gens {
